@@ -140,6 +140,39 @@ func runC17(c *an.Ctx) {
 		}
 	}
 
+	// the pointer setters used by DeleteRange decide on what they read themselves: a header handed in
+	// by the caller is a snapshot taken before the (long, unlocked) deletion and may be below the head
+	// that concurrent appends have published meanwhile — writing it back would move Head() down
+	{
+		nObs := 0
+		for _, name := range []string{"setTail", "setHead"} {
+			fn := p.Method("store", "Store", name)
+			if !c.Need(fn, "C17.b", "store.(*Store)."+name) {
+				continue
+			}
+			st := c.T(fn)
+			an.Instrs(fn, func(in ssa.Instruction) {
+				call, isCall := in.(*ssa.Call)
+				if !isCall || !call.Call.IsInvoke() {
+					return
+				}
+				switch call.Call.Method.Name() {
+				case "Height", "IsZero", "Hash":
+				default:
+					return
+				}
+				nObs++
+				v := call.Call.Value
+				if d := st.Deref(v); d != nil {
+					v = d
+				}
+				_, isParam := v.(*ssa.Parameter)
+				c.Check(!isParam, "C17.b", "setter-reads-fresh:"+name, "setTail/setHead compare against headers they read themselves (after the deletion), never against a header passed in by the caller", fn, call, "observes "+an.Stable(st.Of(call.Call.Value)), nil)
+			})
+		}
+		c.Min("C17.b", "header observations in the pointer setters", nObs, 4)
+	}
+
 	// --- C17.c Sync first
 	{
 		t, ff := c.T(deleteRange), c.F(deleteRange)
@@ -251,6 +284,21 @@ func runC17(c *an.Ctx) {
 			}
 			c.Check(okO, "C17.e", "readable-before-head", "new headers are in the readable pending batch before the head can advance onto them", closure, nil, "", nil)
 			ct, cf := c.T(closure), c.F(closure)
+			// every append round re-evaluates both pointers, whatever the appended range looks like:
+			// with overlapping or out-of-order writers the range that closes a gap is not the one that
+			// starts at head+1, so a conditional advance makes the final head depend on the schedule
+			for _, mv := range []*ssa.Function{adv, p.Method("store", "Store", "recedeTail")} {
+				mcs := callsTo(closure, mv)
+				okU := len(mcs) == 1
+				for _, mc := range mcs {
+					okU = okU && len(cf.AtRefined(mc.Block())) == 0
+				}
+				name := "?"
+				if mv != nil {
+					name = an.FuncName(mv)
+				}
+				c.Check(okU, "C17.e", "pointer-move-unconditional:"+name, "every append round calls advanceHead and recedeTail exactly once and unconditionally (the result must not depend on which writer's range arrives last)", closure, nil, "", nil)
+			}
 			for _, rc := range callsTo(closure, p.Method("store", "batch", "Reset")) {
 				okR := false
 				for _, fc := range callsTo(closure, p.Method("store", "Store", "flush")) {
